@@ -8,6 +8,7 @@ INVARIANT AtMostOnce
 INVARIANT Unsubscribed
 INVARIANT PendingMeansOutstanding
 INVARIANT Creation
+INVARIANT GoneAfterFailure
 PROPERTY AwaitAllAtCompletion
 PROPERTY FailsOnlyIfAllFailed
 PROPERTY FailureNeedsFailedUpload
